@@ -329,6 +329,7 @@ func checkC04(c *Ctx) {
 	c.checkLoopScopeDepth("ES-S")
 	c.checkRunBrackets()
 	c.checkIdleGrowth("C04-GROW")
+	c.checkNestPairing("C04-NEST")
 	c.checkStackmarkIdentity("C04-MARK")
 	c.checkGeneratorCtors("ES-CTOR")
 	c.checkParserStopOrder("C04-STOP")
